@@ -61,11 +61,11 @@ func ruleR07a(c *Ctx, r *Report) {
 		r.InfraFail("%v", err)
 		return
 	}
-	if len(fn.AnonFuncs) != 1 {
+	if len(closuresOf(fn)) != 1 {
 		r.Undec("lookup-confirmation@"+fnKey(fn), c.Pos(fn.Pos()), "expected one callback closure")
 		return
 	}
-	cb := fn.AnonFuncs[0]
+	cb := closuresOf(fn)[0]
 	key := "lookup-confirmation@" + fnKey(cb)
 	// free variables by role
 	var fnErr, fnLen, keyFV, wholeFV *ssa.FreeVar
@@ -448,11 +448,11 @@ func ruleR07d(c *Ctx, r *Report) {
 		return
 	}
 	key := "all-keys-sent@" + fnKey(fn)
-	if len(fn.AnonFuncs) != 1 {
+	if len(closuresOf(fn)) != 1 {
 		r.Undec(key, c.Pos(fn.Pos()), "scanning goroutine not found")
 		return
 	}
-	g := fn.AnonFuncs[0]
+	g := closuresOf(fn)[0]
 	lens := callsToFunc(g, pkgVarint, "", "ReadUvarint")
 	cids := callsToFunc(g, pkgCid, "", "CidFromReader")
 	var sel *ssa.Select
